@@ -460,6 +460,7 @@ fn e2e_path(tag: &str) -> String {
         "s1_t2" | "s2_plain" | "s3_t3" | "s4_t12" => format!("sib::{tag}"),
         "vtune_grp" => format!("vgrp::{tag}"),
         "vskip_grp" => format!("vsgrp::{tag}"),
+        "vgrp_max" => format!("vmgrp::{tag}"),
         _ => tag.to_string(),
     };
     format!("hx_loop_e2e::{rel}")
@@ -493,7 +494,7 @@ fn run_e2e(line: &str) -> String {
     cmd.env("NO_COLOR", "1");
     // `mode` is the REQUESTED action; `start` says how the run is started (see src/e2e.rs)
     let start = if get("start") == "-" { "main" } else { get("start") };
-    cmd.env("HX_START", start);
+    cmd.env("HX_START", if start.starts_with("both-") { "main" } else { start });
     let api_only = start == "api-test" || start == "api-bench";
     // `arg=<c1>/<c2>`: the argument / generic case below the benchmark (row names and CALL tag)
     let arg = if get("arg") == "-" { None } else { Some(get("arg")) };
@@ -509,7 +510,15 @@ fn run_e2e(line: &str) -> String {
         }
         cmd.env("HX_ONLY", path);
     } else {
+        // both flags (`cargo bench -- --test`): test mode wins, in either order
+        if start == "both-bt" {
+            cmd.arg("--bench");
+        } else if start == "both-tb" {
+            cmd.arg("--test");
+        }
         let flag = match start {
+            "both-bt" => "--test",
+            "both-tb" => "--bench",
             "args-test-then-api-bench" => "--test",
             "args-bench-then-api-test" => "--bench",
             _ if get("mode") == "t" => "--test",
@@ -873,8 +882,28 @@ fn run_dur(line: &str) -> String {
     format!("{}:{}", d.as_secs(), d.subsec_nanos())
 }
 
+/// C03, `threads = ..` values as the attribute macro converts them: `t=<usize>` (scalar), `a=<list>` (array),
+/// `r=<lo>..<hi>` (range) through `divan::__private::IntoThreads`; prints the resulting thread counts.
+fn run_thr(line: &str) -> String {
+    use divan::__private::IntoThreads;
+    let out = match line.split_once('=') {
+        Some(("t", v)) => v.parse::<usize>().expect("usize").into_threads(),
+        Some(("a", v)) => {
+            let l: Vec<usize> = v.split(',').filter(|x| !x.is_empty()).map(|x| x.parse().expect("usize")).collect();
+            l.into_threads()
+        }
+        Some(("r", v)) => {
+            let (a, b) = v.split_once("..").expect("range");
+            (a.parse::<usize>().expect("lo")..b.parse::<usize>().expect("hi")).into_threads()
+        }
+        _ => panic!("bad case {line}"),
+    };
+    join(out.iter())
+}
+
 fn dispatch(mode: &str, line: &str) -> String {
     match mode {
+        "c03thr" => run_thr(line),
         "c04dur" => run_dur(line),
         "c03fig" => run_fig(line),
         "c03e2e" | "c04cli" | "c04os" | "c19cli" | "c04ev" | "c04cal" => run_e2e(line),
